@@ -1,0 +1,77 @@
+//go:build verif
+
+package render
+
+import (
+	"sync"
+	"sync/atomic"
+
+	"github.com/deadsy/sdfx/sdf"
+	v2 "github.com/deadsy/sdfx/vec/v2"
+	v3 "github.com/deadsy/sdfx/vec/v3"
+)
+
+// VerifHook, when set, is called at the instrumented linearisation points.
+// It may block (it is used as a scheduler gate by the verification harness).
+var VerifHook func(ev string, a, b, c int)
+
+func verifEv(ev string, a, b, c int) {
+	if h := VerifHook; h != nil {
+		h(ev, a, b, c)
+	}
+}
+
+// VerifHook5 is the five-argument variant of VerifHook.
+var VerifHook5 func(ev string, a, b, c, d, e int)
+
+func verifEv5(ev string, a, b, c, d, e int) {
+	if h := VerifHook5; h != nil {
+		h(ev, a, b, c, d, e)
+	}
+}
+
+func verifBool(b bool) int {
+	if b {
+		return 1
+	}
+	return 0
+}
+
+var verifIDCounter int64
+
+// verifID returns a fresh identity (1, 2, ...) for a goroutine.
+func verifID() int { return int(atomic.AddInt64(&verifIDCounter, 1)) }
+
+// Read-only exports of unexported tables, constants and functions for the
+// verification harness.
+
+// VerifMcTables returns the marching cubes tables.
+func VerifMcTables() (edge [256]int, pair [12][2]int, tri [256][]int) {
+	return mcEdgeTable, mcPairTable, mcTriangleTable
+}
+
+// VerifMsTables returns the marching squares tables.
+func VerifMsTables() (edge [16]int, pair [4][2]int, line [16][]int) {
+	return msEdgeTable, msPairTable, msLineTable
+}
+
+// VerifMcToTriangles calls mcToTriangles.
+func VerifMcToTriangles(p [8]v3.Vec, v [8]float64, x float64) []*sdf.Triangle3 {
+	return mcToTriangles(p, v, x)
+}
+
+// VerifMsToLines calls msToLines.
+func VerifMsToLines(p [4]v2.Vec, v [4]float64, x float64) []*sdf.Line2 {
+	return msToLines(p, v, x)
+}
+
+// VerifEvalChanCap returns the capacity of the evaluation channel.
+func VerifEvalChanCap() int { return cap(evalProcessCh) }
+
+// VerifWriteSTL calls writeSTL.
+func VerifWriteSTL(wg *sync.WaitGroup, path string) (chan<- []*sdf.Triangle3, error) {
+	return writeSTL(wg, path)
+}
+
+// VerifEpsilon is the interpolation snapping threshold.
+const VerifEpsilon = epsilon
